@@ -33,18 +33,18 @@ type Plan struct {
 
 // Result is what one execution of a plan reports.
 type Result struct {
-	Violation  *Violation     `json:"violation,omitempty"`
-	Known      []string       `json:"known,omitempty"` // known-finding keys hit (run tainted)
-	Faults     map[string]int `json:"faults,omitempty"`
-	Probes     map[string]int `json:"probes,omitempty"`
-	Steps      int            `json:"steps"`
-	SimNanos   int64          `json:"sim_ns"`
-	TraceHash  uint64         `json:"trace_hash"`
-	StateHash  uint64         `json:"state_hash"` // digest of the event log incl. observable states
-	Nontrivial bool           `json:"nontrivial"`
-	States     []uint64       `json:"-"` // distinct state digests reached
-	Log        []string       `json:"log,omitempty"`
-	Inconclusive int          `json:"inconclusive,omitempty"`
+	Violation    *Violation     `json:"violation,omitempty"`
+	Known        []string       `json:"known,omitempty"` // known-finding keys hit (run tainted)
+	Faults       map[string]int `json:"faults,omitempty"`
+	Probes       map[string]int `json:"probes,omitempty"`
+	Steps        int            `json:"steps"`
+	SimNanos     int64          `json:"sim_ns"`
+	TraceHash    uint64         `json:"trace_hash"`
+	StateHash    uint64         `json:"state_hash"` // digest of the event log incl. observable states
+	Nontrivial   bool           `json:"nontrivial"`
+	States       []uint64       `json:"-"` // distinct state digests reached
+	Log          []string       `json:"log,omitempty"`
+	Inconclusive int            `json:"inconclusive,omitempty"`
 }
 
 // Canon renders any JSON-marshalable value canonically (sorted keys, numbers as float64).
@@ -91,6 +91,6 @@ func (h *Hasher) Str(s string) *Hasher {
 	h.h = Mix64(h.h, HashString(s), uint64(len(s)))
 	return h
 }
-func (h *Hasher) Int(i int) *Hasher { h.h = Mix64(h.h, uint64(i)); return h }
+func (h *Hasher) Int(i int) *Hasher    { h.h = Mix64(h.h, uint64(i)); return h }
 func (h *Hasher) U64(i uint64) *Hasher { h.h = Mix64(h.h, i); return h }
-func (h *Hasher) Sum() uint64      { return h.h }
+func (h *Hasher) Sum() uint64          { return h.h }
